@@ -65,8 +65,11 @@ def gen_insertion(rng, var, idx, want_id):
                 out.append(rng.choice(absent))
         return out
 
-    kind = rng.choice(["sum", "sum", "sum", "diff", "diff", "diff11", "diffmulti", "neg_only", "first",
-                       "overlap", "dup", "all_stale", "junk"])
+    kinds = ["sum", "sum", "sum", "diff", "diff", "diff11", "diffmulti", "neg_only", "first",
+             "overlap", "dup", "all_stale", "junk"]
+    if var.kind == "cat_date":
+        kinds += ["diff11", "diffmulti", "diffmulti", "sum"]      # the wave-difference rules live here
+    kind = rng.choice(kinds)
     d = {"function": "subtotal", "name": "ins%d" % idx}
     anchors = ["top", "bottom"] + vids[:] + absent[:1]
     d["anchor"] = rng.choice(anchors)
